@@ -473,4 +473,57 @@ Proof.
         -- destruct (skipb_prefix before) as [j2 Hj2]. rewrite Er in Hj2. subst before. cbn [app root_ok cur_ok] in *.
            unfold lead_extra. cbn [root_ok cur_ok]. rewrite Hroot, Hcur. rewrite andb_false_r. reflexivity.
 Qed.
+
+(* what skip_front removes ends with a separator (unless nothing is left or nothing was removed) *)
+Lemma skipf_removed l : exists jr, l = jr ++ skipf l /\
+  (skipf l = [] \/ jr = [] \/ exists j0 s, jr = j0 ++ [s] /\ is_sep s = true).
+Proof.
+  induction l as [|b0 r0 IH0]; [exists []; split; [reflexivity | left; reflexivity]|].
+  cbn [skip_front]. destruct (is_sep b0) eqn:Hb0.
+  - destruct IH0 as (jr & Hj & Hp). exists (b0 :: jr). split; [cbn; f_equal; exact Hj|].
+    destruct Hp as [Hp | [-> | (j0 & s & -> & Hs)]]; [left; exact Hp | right; right; exists [], b0; auto | right; right; exists (b0 :: j0), s; auto].
+  - destruct (norm && (b0 =? 46)) eqn:Hd0; [|exists []; split; [reflexivity | right; left; reflexivity]].
+    destruct r0 as [|c0 r0']; [exists [b0]; split; [reflexivity | left; reflexivity]|].
+    destruct (is_sep c0) eqn:Hc0; [|exists []; split; [reflexivity | right; left; reflexivity]].
+    destruct IH0 as (jr & Hj & Hp). exists (b0 :: jr). split; [cbn [app]; f_equal; exact Hj|].
+    destruct Hp as [Hp | [-> | (j0 & s & -> & Hs)]]; [left; exact Hp | | right; right; exists (b0 :: j0), s; auto].
+    exfalso. cbn [app] in Hj. pose proof (skipf_length (c0 :: r0')) as Hlen.
+    cbn [skip_front] in Hj, Hlen. rewrite Hc0 in Hj, Hlen. pose proof (skipf_length r0') as H2. rewrite <- Hj in H2. cbn in H2. lia.
+Qed.
+Lemma skipb_removed l : exists j, l = skipb l ++ j /\
+  (skipb l = [] \/ j = [] \/ exists s t, j = s :: t /\ is_sep s = true).
+Proof.
+  unfold skip_back. destruct (skipf_removed (rev l)) as (jr & Hj & Hp). exists (rev jr). split.
+  - rewrite <- rev_app_distr. rewrite <- Hj. symmetry. apply rev_involutive.
+  - destruct Hp as [Hp | [-> | (j0 & s & -> & Hs)]].
+    + left. rewrite Hp. reflexivity.
+    + right. left. reflexivity.
+    + right. right. exists s, (rev j0). rewrite rev_app_distr. auto.
+Qed.
+
+(* back_decomp with the shape of what trails the last segment *)
+Lemma back_decomp_j l : skipb l <> [] ->
+  exists before seg j,
+    rspan is_sep (skipb l) = (before, seg) /\ l = before ++ seg ++ j /\ seg <> [] /\ nosep seg = true /\
+    (before = [] \/ exists b' s, before = b' ++ [s] /\ is_sep s = true) /\
+    sc false seg = [classify norm false seg] /\ (norm && is_dot seg) = false /\
+    body l = body before ++ [classify norm false seg] /\
+    (j = [] \/ exists s t, j = s :: t /\ is_sep s = true).
+Proof.
+  intros Hne. pose proof (body_skipb l) as Hb. destruct (skipb_inv l) as [Hroot Hcur].
+  destruct (skipb_removed l) as (j & Hj & Hjp).
+  remember (skipb l) as l1 eqn:El1.
+  destruct (rspan is_sep l1) as [before seg] eqn:Hr.
+  destruct (rspan_spec _ _ _ Hr) as (Hl1 & Hn & Hbef & Hdot).
+  assert (Hseg : seg <> []).
+  { intros ->. rewrite app_nil_r in Hl1. destruct Hbef as [E | (b' & s & E & Hs)]; [congruence|].
+    rewrite Hl1, E in Hroot. rewrite rev_app_distr in Hroot. cbn in Hroot. congruence. }
+  assert (Hnd : (norm && is_dot seg) = false) by (rewrite Hdot; assumption).
+  assert (Hsc : sc false seg = [classify norm false seg]).
+  { apply classify_sc; [assumption|]. apply andb_false_iff in Hnd. destruct Hnd; auto. }
+  exists before, seg, j. repeat split; try assumption.
+  - rewrite Hj, Hl1. rewrite <- app_assoc. reflexivity.
+  - rewrite <- Hb. rewrite Hl1. rewrite body_before_seg by assumption. rewrite Hsc. reflexivity.
+  - destruct Hjp as [Hp | Hp]; [congruence | exact Hp].
+Qed.
 End P.
